@@ -70,6 +70,11 @@ func driveC01(a *args, s *vt.Sink) error {
 			n = 600
 		}
 	}
+	for _, useTLS := range []bool{false, true} {
+		if err := c01ping(s, useTLS, a.seed); err != nil {
+			return err
+		}
+	}
 	rng := rand.New(rand.NewSource(a.seed))
 	var scns []*c01scn
 	for i := 0; i < n; i++ {
